@@ -54,14 +54,14 @@ func bound(tier string) string {
 	if tier == engine.Thorough {
 		return "methods: all 10 DAGs on 3 flavors x every set of <= 4 of the 12 (flavor x primary/before/after/whopper) definitions x ALL definition orders; " +
 			"all 160 DAGs on 4 flavors (<= 3 ordered components) x every set of <= 2 of 16 definitions x ALL orders; the 4-flavor DAGs whose last flavor " +
-			"inherits all others x every set of 3 definitions x ALL orders and x every set of 4 definitions x early/late orders (each method directly after its " +
+			"inherits all others x every set of 3 definitions x ALL orders and x every set of 4 primary/before/whopper definitions x early/late orders (each method directly after its " +
 			"defflavor or after all defflavors, late ones in every permutation, every defflavor order); 5-flavor DAGs with <= 2 components whose last flavor " +
 			"inherits all others x every set of <= 2 definitions x early/late orders. variables: all DAGs on 3 flavors x 9 option tokens per flavor, " +
 			"all 160 DAGs on 4 flavors x 6 option tokens per flavor, every defflavor order"
 	}
 	return "methods: all 10 DAGs on 3 flavors x every set of <= 3 of the 12 (flavor x primary/before/after/whopper) definitions x ALL definition orders; " +
 		"the 4-flavor DAGs (<= 3 ordered components) whose last flavor inherits all others x every set of <= 2 of 16 definitions x ALL orders, and x every set of 3 " +
-		"definitions restricted to early/late orders (each method directly after its defflavor or after all defflavors, late ones in every permutation). " +
+		"primary/before/whopper definitions restricted to early/late orders (each method directly after its defflavor or after all defflavors, late ones in every permutation). " +
 		"variables: all 10 DAGs on 3 flavors x 9 option tokens per flavor (x default, bare gettable/settable/inittable, init keyword, second variable y), every defflavor order"
 }
 
@@ -71,10 +71,10 @@ var (
 )
 
 func enumerate(tier string, emit func(string)) {
-	emitM := func(dags [][][]int, kmin, kmax int, mode string) {
+	emitM := func(dags [][][]int, kmin, kmax int, mode string, kinds string) {
 		for _, d := range dags {
 			n := len(d)
-			for _, ms := range methSubsets(n, kmax, allKinds) {
+			for _, ms := range methSubsets(n, kmax, kinds) {
 				if len(ms) < kmin {
 					continue
 				}
@@ -107,21 +107,21 @@ func enumerate(tier string, emit func(string)) {
 		}
 	}
 	// simplest first
-	emitM(allDags(2, 3, false), 0, 3, "all")
+	emitM(allDags(2, 3, false), 0, 3, "all", allKinds)
 	if tier == engine.Thorough {
-		emitM(allDags(3, 3, false), 0, 4, "all")
+		emitM(allDags(3, 3, false), 0, 4, "all", allKinds)
 		emitV(allDags(3, 3, false), tokens9)
-		emitM(allDags(4, 3, false), 0, 2, "all")
-		emitM(allDags(4, 3, true), 3, 3, "all")
-		emitM(allDags(4, 3, true), 4, 4, "el")
+		emitM(allDags(4, 3, false), 0, 2, "all", allKinds)
+		emitM(allDags(4, 3, true), 3, 3, "all", allKinds)
+		emitM(allDags(4, 3, true), 4, 4, "el", "pbw")
 		emitV(allDags(4, 3, false), tokens6)
-		emitM(allDags(5, 2, true), 0, 2, "el")
+		emitM(allDags(5, 2, true), 0, 2, "el", allKinds)
 		return
 	}
-	emitM(allDags(3, 3, false), 0, 3, "all")
+	emitM(allDags(3, 3, false), 0, 3, "all", allKinds)
 	emitV(allDags(3, 3, false), tokens9)
-	emitM(allDags(4, 3, true), 0, 2, "all")
-	emitM(allDags(4, 3, true), 3, 3, "el")
+	emitM(allDags(4, 3, true), 0, 2, "all", allKinds)
+	emitM(allDags(4, 3, true), 3, 3, "el", "pbw")
 }
 
 // ------------------------------------------------------------------- running
